@@ -9,6 +9,7 @@ import (
 	"os"
 	"path"
 	"path/filepath"
+	"sort"
 	"strings"
 	"sync"
 
@@ -221,6 +222,12 @@ func (db *MultiBucketBackend) getBucketWithArbitraryPrefixLocked(bucket string, 
 	}); err != nil {
 		return nil, err
 	}
+
+	// Walk visits directories in name order, which is not key order ("a/b"
+	// is walked before "a-c"); S3 lists keys in ascending byte order:
+	sort.Slice(response.Contents, func(i, j int) bool {
+		return response.Contents[i].Key < response.Contents[j].Key
+	})
 
 	return response, nil
 }
